@@ -2,7 +2,7 @@
 // Cell A is a small tetrahedron whose first node is the query point p (A = p + 0.3 * unit tetrahedron), cell B a tetrahedron
 // scale * unit + offset, optional cell C (static) another tetrahedron. The whole tissue is shifted by T.
 // din: [cut_adh, cut_rep, l_min, T(3), p(3), B scale, B offset(3), C scale, C offset(3)]
-// iin: [class of A, class of B, with C (0/1), reference run (0/1)]
+// iin: [class of A, class of B, with C (0/1), reference run (0/1), number of runs of the same model object]
 // The real model's run() is executed; irsym records which (node, face) pairs pass the broad phase (calls of
 // aabb_intersection_check that return true).  With iin[3] = 1 the same tissue is also run through a second model object whose
 // grid has a single voxel per axis (min_edge_len = 1e9): same AABB test and narrow phase, no spatial discarding.
@@ -84,6 +84,12 @@ static void dump(vio* io, const std::vector<cell_ptr>& cells) {
     }
 }
 
+// marks the beginning of the k-th run of the same model object in the event log of irsym (no effect natively)
+static volatile long g_c06_run = 0;
+extern "C" __attribute__((noinline)) void h_c06_marker(long k) { g_c06_run = k; }
+
+// iin[4] (optional, default 1): number of consecutive runs of the SAME model object (the solver keeps one contact model for the whole
+// simulation); node forces are cleared between the runs and the forces of the last run are dumped
 HARNESS(h_c06_broad) {
     const double* D = io->din;
     global_simulation_parameters sp;
@@ -91,7 +97,12 @@ HARNESS(h_c06_broad) {
     {
         std::vector<cell_ptr> cells = build(io);
         model_t model(sp);
-        model.run(cells);
+        const long nruns = io->iin[4] > 1 ? io->iin[4] : 1;
+        for (long k = 0; k < nruns; k++) {
+            h_c06_marker(k);
+            for (auto& c : cells) for (node& n : c->node_lst_) n.force_.reset(0., 0., 0.);
+            model.run(cells);
+        }
         dump(io, cells);
     }
     if (io->iin[3]) {
